@@ -25,7 +25,8 @@ RULE = (
     "synchronize_session in {evaluate, fetch, auto}. Non-trivial: criterion has NOT over a NULL-able subexpression, % or / with a negative/zero "
     "operand, IN/NOT IN with NULL, a LIKE-family operator with %/_, or the composite-key family (a third of stmt cases: table PRIMARY KEY (id, k), mapper "
     "primary_key=[k, id], rows with mirrored key pairs), or an unflushed in-memory change (Session(autoflush=False)) on an attribute the UPDATE assigns and no "
-    "expression of the statement reads (matched rows must then show the database value, unmatched rows keep their pending change); distinct = canonical JSON"
+    "expression of the statement reads (matched rows must then show the database value, unmatched rows keep their pending change), or the statement runs inside "
+    "begin_nested() that is rolled back afterwards (objects loaded at statement time must show the reverted row again), with SET values that are SQL functions; distinct = canonical JSON"
 )
 ASSUMPTIONS = [
     "live SQLite only; UPDATE..RETURNING is available so 'fetch' uses RETURNING, and is also run with RETURNING disabled on the dialect (pre-select path)",
@@ -347,6 +348,8 @@ _setexpr = st.deferred(lambda: st.one_of(
 _setclause = st.one_of(
     st.tuples(st.just("x"), st.one_of(_setexpr, st.just(["null"]))),
     st.tuples(st.just("y"), _setexpr),
+    # SET values the Python evaluator cannot compute (a SQL function): the attribute can only be expired / fetched
+    st.tuples(st.sampled_from(["x", "y"]), st.sampled_from([["abs", ["col", "x"]], ["abs", ["col", "y"]]])),
     st.tuples(st.just("s"), st.sampled_from([["str", "zz"], ["null"], ["concat", "q"]])),
 )
 
@@ -364,6 +367,8 @@ def _stmts(draw):
         "set": [list(x) for x in draw(st.lists(_setclause, min_size=1, max_size=2, unique_by=lambda t: t[0]))],
         "composite": draw(st.sampled_from([0, 0, 1])),
         # unflushed in-memory changes (Session(autoflush=False)) on attributes that the UPDATE assigns: [object index, attribute, value index]
+        # the statement runs inside begin_nested(); afterwards the savepoint is rolled back and every object must show the pre-statement row again
+        "savepoint": draw(st.sampled_from([0, 0, 1])),
         "dirty": [list(t) for t in draw(st.one_of(st.just([]), st.just([]), st.lists(st.tuples(st.integers(0, 7), st.sampled_from(["x", "y", "s"]), st.integers(0, 4)), min_size=1, max_size=3)))],
     }
 
@@ -375,6 +380,10 @@ def _build_set(spec, T):
         return null()
     if spec[0] == "concat":
         return T.s + spec[1]
+    if spec[0] == "abs":
+        from sqlalchemy import func
+
+        return func.abs(_build(spec[1], T))
     return _build(spec, T)
 
 
@@ -462,6 +471,10 @@ def check_stmt(case, ctx):
         sync = "fetch" if case["sync"] == "fetch_noreturning" else case["sync"]
         before_rows = sess.connection().exec_driver_sql(f"select id, x, y, s from {tname} order by id").fetchall()
         before_mem = {oid: dict(inspect(o).dict) for oid, o in zip(ids, objs)}
+        sp = sess.begin_nested() if (case.get("savepoint") and not dirty) else None
+        if sp is not None:
+            feats.add("inside-savepoint")
+            ctx.note(case, True, classes=["inside-savepoint"] + (["savepoint+unevaluatable-set"] if any(v[0] == "abs" for _k, v in case.get("set", [])) and case["kind"] == "update" else []))
         cap.clear()
         raised = None
         try:
@@ -525,6 +538,27 @@ def check_stmt(case, ctx):
                     continue
                 if getattr(o, attr) != row[idx]:
                     raise Violation(_sync_sig(case, "reload-mismatch"), f"object {oid}.{attr} loads {getattr(o, attr)!r}, DB has {row[idx]!r}")
+        if sp is not None:
+            # (the loop above read every attribute, i.e. reloaded whatever the statement had expired, inside the savepoint)
+            sp.rollback()
+            back = {r[0]: r for r in sess.connection().exec_driver_sql(f"select id, x, y, s from {tname} order by id").fetchall()}
+            if back == {r[0]: r for r in before_rows}:
+                for oid, o in zip(ids, objs):
+                    st_ = inspect(o)
+                    if not st_.persistent:
+                        raise Violation(f"C43/{case['sync']}/savepoint-rollback/object-not-restored", f"row {oid} is back after the savepoint rollback but the object is {'detached' if st_.detached else 'not persistent'} "
+                                        f"(kind={case['kind']}, crit={case['crit']})")
+                    if oid in expired_ids:
+                        # an object that was (partly) expired when the statement ran is not synchronised but simply loads later; what it
+                        # loaded inside the savepoint is ordinary loaded state, which a savepoint rollback does not expire (Session docs:
+                        # only objects modified inside the savepoint are expired) - outside this property
+                        continue
+                    row = back[oid]
+                    for idx, attr in ((1, "x"), (2, "y"), (3, "s")):
+                        got = getattr(o, attr)
+                        if got != row[idx]:
+                            raise Violation(f"C43/{case['sync']}/savepoint-rollback/stale-attribute", f"after rolling back the savepoint around the {case['kind']}, object {oid}.{attr} = {got!r} but the row "
+                                            f"reverted to {row[idx]!r} (sync={case['sync']}, crit={case['crit']}, set={case.get('set')})", observed=repr(got), expected=repr(row[idx]))
     finally:
         cap.close()
         sess.close()
